@@ -45,3 +45,275 @@ safe GetAllRecords [C03]
 
 lemma majorityForms [C03]: forall l Int :: l >= 1 ==> l - (l - 1) / 2 == l / 2 + 1
 @*/
+
+/*@
+module names
+props C18
+dialect neovm
+
+// C18: syntactic validity of names. validLabel is written from the property statement: 1..63 (last label: 1..16)
+// bytes, lowercase letters and digits with inner hyphens, the last label starting with a letter.
+pure alnum(c Int) Bool = (c >= 97 && c <= 122) || (c >= 48 && c <= 57)
+pure inner(c Int) Bool = c == 45 || alnum(c)
+pure validLabel(v Bytes, root Bool) Bool = len(v) >= 1 && len(v) <= (root ? 16 : 63)
+     && (root ? (v[0] >= 97 && v[0] <= 122) : alnum(v[0])) && alnum(v[len(v) - 1])
+     && (forall i Int {v[i]} :: 1 <= i && i < len(v) - 1 ==> inner(v[i]))
+
+func isAlNum(c) (r)
+  pure
+  ensures r == alnum(c)
+
+func checkFragment(v, isRoot) (r)
+  pure
+  ensures [C18] r ==> validLabel(v, isRoot)
+  ensures [C18] validLabel(v, isRoot) ==> r
+  loop 0
+    invariant 1 <= i
+    invariant forall j Int {v[j]} :: 1 <= j && j < i ==> inner(v[j])
+@*/
+
+/*@
+module ownership
+props C10 C11
+dialect neovm
+
+// C10/C11: NEP-11 accounting and transfer of names.
+pure tkey(n Bytes) Bytes = ripemd160(n)
+pure nkey(n Bytes) Bytes = "\x21" ++ tkey(n)
+pure bkey(o Bytes) Bytes = "\x01" ++ o
+pure ikey(o Bytes, n Bytes) Bytes = "\x02" ++ o ++ tkey(n)
+pure nbal(s Store, o Bytes) Int = s.has(bkey(o)) ? b2i(s.get(bkey(o))) : 0
+pure ns(s Store, n Bytes) NameState = deser_NameState(s.get(nkey(n)))
+
+func updateBalance(ctx, tokenId, acc, diff)
+  ensures [C10] nbal(store, acc) == old(nbal(store, acc)) + diff
+  ensures [C10] nbal(store, acc) == 0 ==> !store.has(bkey(acc))
+  ensures [C10] diff < 0 ==> !store.has(ikey(acc, tokenId))
+  ensures [C10] diff >= 0 ==> store.has(ikey(acc, tokenId)) && store.get(ikey(acc, tokenId)) == tokenId
+  ensures [C10] forall k Bytes {store.opt(k)} :: k != bkey(acc) && k != ikey(acc, tokenId) ==> store.opt(k) == old(store).opt(k)
+  ensures notifs == old(notifs)
+
+func Transfer(to, tokenID, data) (ok)
+  // only the owner can transfer; a refused transfer changes nothing
+  ensures [C10,C11] ok ==> W(old(ns(store, tokenID)).Owner) && old(store).has(nkey(tokenID)) && len(to) == 20
+  ensures [C10,C11] !ok ==> store == old(store) && notifs == old(notifs)
+  ensures [C10] ok ==> notifs == old(notifs) ++ [Transfer(old(ns(store, tokenID)).Owner, to, 1, tokenID)]
+  // transfer changes only the owner (and clears the admin)
+  ensures [C10] ok && to != old(ns(store, tokenID)).Owner ==>
+        store.has(nkey(tokenID)) && ns(store, tokenID).Owner == to && isnil(ns(store, tokenID).Admin)
+        && ns(store, tokenID).Name == old(ns(store, tokenID)).Name && ns(store, tokenID).Expiration == old(ns(store, tokenID)).Expiration
+  ensures [C10] ok && to == old(ns(store, tokenID)).Owner ==> store == old(store)
+  ensures [C10] ok && to != old(ns(store, tokenID)).Owner ==> nbal(store, to) == old(nbal(store, to)) + 1
+        && nbal(store, old(ns(store, tokenID)).Owner) == old(nbal(store, old(ns(store, tokenID)).Owner)) - 1
+        && store.has(ikey(to, tokenID)) && !store.has(ikey(old(ns(store, tokenID)).Owner, tokenID))
+@*/
+
+/*@
+module records
+props C12
+dialect neovm
+
+// C12: the record store. Key layout 0x22 ++ ripemd160(token) ++ ripemd160(name) ++ type ++ id.
+ufun tokenOf(s Store, n Bytes) Bytes
+pure rprefix(t Bytes, n Bytes, ty Int) Bytes = "\x22" ++ ripemd160(t) ++ ripemd160(n) ++ byte(ty)
+pure rkey(t Bytes, n Bytes, ty Int, id Int) Bytes = rprefix(t, n, ty) ++ byte(id)
+pure skey_(t Bytes) Bytes = rkey(t, t, 6, 0)
+
+func checkRecord(ctx, name, typ, data) (r)
+  trusted
+  pure
+  ensures r == tokenOf(old(store), name) && !isnil(r)
+  ensures typ == 1 || typ == 5 || typ == 16 || typ == 28
+
+func storeRecord(ctx, tokenId, name, typ, id, data)
+  ensures [C12] store.has(rkey(tokenId, name, typ, id))
+        && deser_RecordState(store.get(rkey(tokenId, name, typ, id))) == RecordState{name, typ, data, id}
+  ensures [C12] forall k Bytes {store.opt(k)} :: k != rkey(tokenId, name, typ, id) ==> store.opt(k) == old(store).opt(k)
+  ensures notifs == old(notifs)
+
+func updateSoaSerial(ctx, tokenId)
+  trusted
+  ensures forall k Bytes {store.opt(k)} :: k != skey_(tokenId) ==> store.opt(k) == old(store).opt(k)
+  ensures notifs == old(notifs)
+
+func AddRecord(name, typ, data)
+  // at most 16 records per (name, type), at most one CNAME
+  ensures [C12] cnt(old(store), rprefix(tokenOf(old(store), name), name, typ)) <= 15
+  ensures [C12] typ == 5 ==> cnt(old(store), rprefix(tokenOf(old(store), name), name, typ)) == 0
+  // the new record is stored at id = number of records already there
+  ensures [C12] store.has(rkey(tokenOf(old(store), name), name, typ, cnt(old(store), rprefix(tokenOf(old(store), name), name, typ))))
+        && deser_RecordState(store.get(rkey(tokenOf(old(store), name), name, typ, cnt(old(store), rprefix(tokenOf(old(store), name), name, typ)))))
+           == RecordState{name, typ, data, cnt(old(store), rprefix(tokenOf(old(store), name), name, typ))}
+  // nothing but that key and the SOA record of the token changes
+  ensures [C12] forall k Bytes {store.opt(k)} :: k != skey_(tokenOf(old(store), name))
+        && k != rkey(tokenOf(old(store), name), name, typ, cnt(old(store), rprefix(tokenOf(old(store), name), name, typ))) ==> store.opt(k) == old(store).opt(k)
+  // an equal record already stored under (name, type) makes the call fail
+  ensures [C12] forall j Int {skey(old(store), rprefix(tokenOf(old(store), name), name, typ), j)} :: 0 <= j && j < cnt(old(store), rprefix(tokenOf(old(store), name), name, typ)) ==>
+        !(deser_RecordState(old(store).get(skey(old(store), rprefix(tokenOf(old(store), name), name, typ), j))).Name == name
+          && deser_RecordState(old(store).get(skey(old(store), rprefix(tokenOf(old(store), name), name, typ), j))).Type == typ
+          && deser_RecordState(old(store).get(skey(old(store), rprefix(tokenOf(old(store), name), name, typ), j))).Data == data)
+  loop 0
+    invariant id == $it.pos && store == old(store) && notifs == old(notifs)
+    invariant forall j Int {$it.key(j)} :: 0 <= j && j < $it.pos ==>
+        !(deser_RecordState(store.get($it.key(j))).Name == name && deser_RecordState(store.get($it.key(j))).Type == typ && deser_RecordState(store.get($it.key(j))).Data == data)
+
+func SetRecord(name, typ, id, data)
+  // replaces exactly the record at that index, which must exist
+  ensures [C12] old(store).has(rkey(tokenOf(old(store), name), name, typ, id))
+  ensures [C12] deser_RecordState(store.get(rkey(tokenOf(old(store), name), name, typ, id))) == RecordState{name, typ, data, id}
+  ensures [C12] forall k Bytes {store.opt(k)} :: k != skey_(tokenOf(old(store), name)) && k != rkey(tokenOf(old(store), name), name, typ, id) ==> store.opt(k) == old(store).opt(k)
+@*/
+
+/*@
+module admin
+props C11
+dialect neovm
+
+// C11: who may change a name. adminOK(n) is the rule of the property statement read on a stored record n:
+// the committee for committee-owned names (TLDs), otherwise the owner or the appointed admin.
+ufun tokenOf(s Store, n Bytes) Bytes
+pure nkey(n Bytes) Bytes = "\x21" ++ ripemd160(n)
+pure rec(s Store, n Bytes) NameState = deser_NameState(s.get(nkey(n)))
+pure adminOK(n NameState) Bool = (len(n.Owner) == 0 && W(cmtaddr())) || (len(n.Owner) != 0 && W(n.Owner))
+                              || (len(n.Owner) != 0 && !isnil(n.Admin) && W(n.Admin))
+
+func checkCommittee()
+  pure
+  ensures [C11] W(cmtaddr())
+
+func (n NameState) checkAdmin()
+  pure
+  ensures [C11] adminOK(n)
+
+func (n NameState) ensureNotExpired()
+  pure
+  ensures now < n.Expiration
+
+func parentExpired(ctx, first, fragments) (r)
+  pure
+  loop 0
+    invariant true
+
+func getNameStateWithKey(ctx, tokenKey) (r)
+  pure
+  ensures store.has("\x21" ++ tokenKey) && r == deser_NameState(store.get("\x21" ++ tokenKey)) && now < r.Expiration
+
+func getFragmentedNameState(ctx, tokenID, fragments) (r)
+  pure
+  ensures store.has(nkey(tokenID)) && r == rec(store, tokenID) && now < r.Expiration
+
+func getNameState(ctx, tokenID) (r)
+  pure
+  ensures store.has(nkey(tokenID)) && r == rec(store, tokenID) && now < r.Expiration
+
+// which registered name holds the records of `name` is C12's subject; here it is just named
+func tokenIDFromName(ctx, name) (r)
+  trusted
+  pure
+  ensures r == tokenOf(store, name) && !isnil(r)
+
+func checkIPv4(data) (r)
+  trusted
+  pure
+  ensures true
+
+func checkIPv6(data) (r)
+  trusted
+  pure
+  ensures true
+
+func checkFragment(v, isRoot) (r)
+  trusted
+  pure
+  ensures true
+
+func safeSplitAndCheck(name) (r, msg)
+  pure
+  ensures len(msg) == 0 ==> r == split(name, ".")
+  loop 0
+    invariant l == len(fragments) && fragments == split(name, ".")
+
+func splitAndCheck(name) (r)
+  pure
+  ensures r == split(name, ".")
+
+func getParentConflictingRecord(ctx, name, fragments) (r)
+  trusted
+  pure
+  ensures true
+
+func checkRecord(ctx, name, typ, data) (r)
+  pure
+  ensures [C11] r == tokenOf(store, name) && store.has(nkey(r)) && adminOK(rec(store, r))
+
+func updateSoaSerial(ctx, tokenId)
+  trusted
+  ensures notifs == old(notifs)
+
+func putSoaRecord(ctx, name, email, refresh, retry, expire, ttl)
+  trusted
+  ensures notifs == old(notifs)
+
+func updateBalance(ctx, tokenId, acc, diff)
+  trusted
+  ensures notifs == old(notifs)
+
+// records can be added, replaced or deleted only with the witness of the owner/admin of the name that holds them
+func AddRecord(name, typ, data)
+  ensures [C11] adminOK(rec(old(store), tokenOf(old(store), name)))
+  loop 0
+    invariant store == old(store)
+
+func SetRecord(name, typ, id, data)
+  ensures [C11] adminOK(rec(old(store), tokenOf(old(store), name)))
+
+func DeleteRecords(name, typ)
+  ensures [C11] adminOK(rec(old(store), tokenOf(old(store), name)))
+  loop 0
+    invariant true
+
+func UpdateSOA(name, email, refresh, retry, expire, ttl)
+  ensures [C11] old(store).has(nkey(name)) && adminOK(rec(old(store), name))
+
+func Renew(name, years) (r)
+  ensures [C11] old(store).has(nkey(name)) && adminOK(rec(old(store), name))
+
+// only the owner can appoint an admin, and only together with the new admin
+func SetAdmin(name, admin)
+  ensures [C11] old(store).has(nkey(name)) && W(rec(old(store), name).Owner) && (isnil(admin) || W(admin))
+
+// only the owner can transfer; a refused transfer changes nothing
+func Transfer(to, tokenID, data) (ok)
+  ensures [C11] ok ==> old(store).has(nkey(tokenID)) && W(rec(old(store), tokenID).Owner)
+  ensures [C11] !ok ==> store == old(store) && notifs == old(notifs)
+
+// sub-names (three labels and more) can be registered only by the owner/admin of the directly enclosing name,
+// every name only on behalf of an owner who witnesses the transaction
+pure parentName(n Bytes) Bytes = n[indexof(n, ".") + 1 :]
+
+func saveDomain(ctx, name, email, refresh, retry, expire, ttl, owner)
+  trusted
+  ensures notifs == old(notifs)
+
+func updateTotalSupply(ctx, diff)
+  trusted
+  ensures notifs == old(notifs)
+
+func postTransfer(from, to, tokenID, data)
+  trusted
+  ensures true
+
+func Register(name, owner, email, refresh, retry, expire, ttl) (ok)
+  ensures [C11] W(owner) && len(owner) == 20
+  ensures [C11] len(split(name, ".")) >= 2
+  ensures [C11] len(split(name, ".")) > 2 ==> adminOK(rec(old(store), parentName(name)))
+
+func RegisterTLD(name, email, refresh, retry, expire, ttl)
+  ensures [C11] W(cmtaddr())
+
+func SetPrice(price)
+  ensures [C11] W(cmtaddr())
+
+func Update(nef, manifest, data)
+  ensures [C11] W(cmtaddr())
+@*/
